@@ -365,14 +365,18 @@ class Check:
                     lines.append(f"KNOWN-FINDING: property={self.pid} {f['id']}: {f['summary']} [not reproduced in this run]")
         rc = 0
         shown = 0
-        for i, v in enumerate(self.violations):
+        import glob
+        for old in glob.glob(os.path.join(VERIF, 'replay', f'{self.pid}-*.json')):
+            os.remove(old)
+        # concrete failing inputs first; at most 5 replay files per run
+        ordered = sorted(self.violations, key=lambda v: v['no_failing_input'])
+        for i, v in enumerate(ordered[:5]):
             path = os.path.join(VERIF, 'replay', f'{self.pid}-{self.seed}-{i}.json')
             with open(path, 'w') as fo:
                 json.dump({'property': self.pid, 'seed': self.seed, 'tier': self.tier, **v}, fo, indent=1, default=str)
-            if shown < 5:
-                suffix = ' no-failing-input-found' if v['no_failing_input'] else ''
-                lines.append(f'VIOLATION property={self.pid} replay={path}{suffix}')
-                shown += 1
+            suffix = ' no-failing-input-found' if v['no_failing_input'] else ''
+            lines.append(f'VIOLATION property={self.pid} replay={path}{suffix}')
+        if self.violations:
             rc = 1
         cov = {
             'obligations': nobl, 'discharged': ndis,
